@@ -94,6 +94,15 @@ var eciesVar = map[ref.Variant]ecies.Variant{ref.Tink: ecies.VariantTink, ref.Cr
 
 func salts() [][]byte { return [][]byte{nil, {0x5a}, ref.KeyBytes("c06-ecies-salt", 32)} }
 
+// zeroSalts: all-zero and zero-padded salts. Up to the HMAC block size an all-zero salt equals the RFC 5869
+// default, beyond it (65 bytes for SHA-1/224/256, 129 for SHA-384/512) it does not: no layer (parameters, key
+// serialisation, HKDF helper) may normalise such a salt away.
+func zeroSalts() [][]byte {
+	pad := make([]byte, 140)
+	pad[130] = 0x80
+	return [][]byte{{}, make([]byte, 32), make([]byte, 64), make([]byte, 65), make([]byte, 128), make([]byte, 129), pad}
+}
+
 // eciesSK: deterministic scalar; which=1 has three leading zero bytes.
 func eciesSK(c curveDef, label string, which int) []byte {
 	b := ref.KeyBytes(fmt.Sprintf("c06-ecies-%s-%s-%d", c.name, label, which), c.n)
@@ -269,6 +278,7 @@ func eciesSection(x *h.X) {
 	idl := ids(x)
 	var cl cell
 	si := 0
+	zeroOK := false // zero-shaped salts: P-256, every hash, first DEM, first cell
 	if x.Thorough() || ci == 0 {
 		// P-256 (and everything in thorough): the full hash x DEM product
 		hi := x.Choose("hash", len(eciesHashes))
@@ -285,12 +295,15 @@ func eciesSection(x *h.X) {
 			if hi == 0 && di == 0 {
 				cells = append(cells, extraIDCells(len(idl), true)...)
 			}
-			cl = cells[x.Choose("variant/id/path/keypair", len(cells))]
+			cj := x.Choose("variant/id/path/keypair", len(cells))
+			cl = cells[cj]
+			zeroOK = di == 0 && cj == 0 && si == 0
 		default:
 			// P-256 quick, P-384 / P-521 thorough: three (salt, variant/id/path/keypair) pairs, rotated
 			k := x.Choose("variant/id/path/keypair", 3)
 			cl = eciesQuickCells[k]
 			si = (k + hi + di) % 3
+			zeroOK = ci == 0 && di == 0 && k == 0
 		}
 	} else {
 		// quick, P-384 / P-521: every hash and every DEM once per point format (shifted diagonal)
@@ -301,7 +314,17 @@ func eciesSection(x *h.X) {
 		si = (i + 2*fi) % 3
 	}
 	e.salt = salts()[si]
+	zeroPath := -1
+	if zeroOK {
+		if z := x.Choose("zero-salt-shape(0=regular)", 1+len(zeroSalts())); z > 0 {
+			e.salt = zeroSalts()[z-1]
+			zeroPath = x.Choose("zero-salt-path", len(eciesPaths)) // both the key-object and the serialised-keyset route
+		}
+	}
 	e.v, e.id, e.path = cl.v, idl[cl.id], eciesPaths[cl.path]
+	if zeroPath >= 0 {
+		e.path = eciesPaths[zeroPath]
+	}
 	x.Label(fmt.Sprintf("%v id=%#x %s keypair=%d salt %d bytes", e.v, e.id, e.path, cl.kp, len(e.salt)))
 	if !e.init(x) {
 		return
